@@ -2,5 +2,5 @@
 from checks import seqcheck
 
 def main(tier, seed, replay):
-    return seqcheck.main("C04", "Properties/C04.v", tier, seed, replay, scenarios=['basic','boundary','faults','crash','cache','clockcrash'],
+    return seqcheck.main("C04", "Properties/C04.v", tier, seed, replay, scenarios=['basic','boundary','faults','crash','cache','clockcrash','sharedissuer'],
                          own_prefixes=tuple("C04".split(",")))
